@@ -5,6 +5,7 @@ import Np.Model.CRat
 import Np.Model.Arr
 import Np.Model.Options
 import Np.Model.Index
+import Np.Model.Key
 /-! line-protocol driver: one JSON case per line on stdin, the model's answer per line on stdout -/
 open Lean Np Np.Shape
 
@@ -147,6 +148,24 @@ def runCase (j : Json) : E Json := do
       | some (.str o) => Index.bindex false start stop ct0 ct1 o
       | _ => Index.glexindex false start stop ct0 ct1 (jBoolD j "graded" false) (jBoolD j "reverse" false)
     pure (Json.mkObj [("status", "ok"), ("kind", "rows"), ("value", toJson r)])
+  | "keyrange" =>
+    -- exponents in [lo, hi) the model says cannot be stored, and a round-trip check of those that can
+    let lo ← jNat (← j.getObjVal? "lo")
+    let hi ← jNat (← j.getObjVal? "hi")
+    let off := Generated.keyOffset
+    let bad := (List.range (hi - lo)).filterMap fun i =>
+      match Key.encodeKey off [lo + i] with
+      | none => some (lo + i)
+      | some k => if Key.decodeKey off k == [lo + i] then none else some (lo + i)
+    pure (Json.mkObj [("status", "ok"), ("kind", "invalid"), ("value", toJson bad)])
+  | "mulkey" =>
+    let e1 ← jNats (← j.getObjVal? "e1")
+    let e2 ← jNats (← j.getObjVal? "e2")
+    let sums := List.zipWith (· + ·) e1 e2
+    let r := Key.mulKeyPath Generated.keyOffset (jBoolD j "dtypeOk" true) (sums.foldl max 0) e1 e2
+    let old := Key.mulKey Generated.keyOffset e1 e2
+    pure (Json.mkObj [("status", "ok"), ("kind", "key"), ("value", toJson r), ("old", toJson old),
+      ("exact", toJson (Key.encodeKey Generated.keyOffset sums))])
   | _ => throw s!"bad-op {op}"
 
 def step (line : String) : String :=
